@@ -670,9 +670,8 @@ Proof.
   - inj3 E. congruence.
 Qed.
 
-(** ** The same facts for every reachable state of one incoming map *)
-Theorem in_reach_facts : forall uni client N m, 0 <= N -> ireach uni client N m ->
-  let f := first_incoming uni client in
+(** ** The facts that hold in every state satisfying the invariant *)
+Definition in_facts (f : Z) (m : inmap) : Prop :=
   (* STREAM_LIMIT_ERROR exactly beyond the advertised MAX_STREAMS *)
   (forall id, on_lattice f id ->
      (snd (in_get_or_open m id) = RErr ErrLimit <-> in_adv m < id_stream_num id)) /\
@@ -684,21 +683,29 @@ Theorem in_reach_facts : forall uni client N m, 0 <= N -> ireach uni client N m 
      zlen (i_streams m') = zlen (i_streams m) - 1 /\
      (exists id, (op = IDelete id \/ op = IAccept /\ r = RId id) /\ id < i_nextAccept m' /\
                  lookup id (i_streams m) <> None /\ lookup id (i_streams m') = None) /\
-     exists n, fr = [FMax uni n] /\ in_adv m < n /\ n = in_adv m' /\ n <= SM_MaxStreamCount) /\
+     exists n, fr = [FMax (i_uni m) n] /\ in_adv m < n /\ n = in_adv m' /\ n <= SM_MaxStreamCount) /\
   (* the advertised limit never decreases *)
   (forall op m' r fr, iop_ok f op -> istep m op = (m', r, fr) -> in_adv m <= in_adv m') /\
   (* a stream that is opened and not yet accepted is returned by the next Accept *)
   (i_closed m = None -> i_nextAccept m < i_nextOpen m -> snd (fst (in_accept m)) = RId (i_nextAccept m)).
+
+Lemma in_facts_inv : forall f N m, 0 <= f <= 3 -> inv_in f N m -> in_facts f m.
 Proof.
-  intros uni client N m HN R f. pose proof (first_incoming_range uni client) as Hf. fold f in Hf.
-  destruct (ireach_inv _ _ _ _ HN R) as [Inv Hu]. fold f in Inv.
+  intros f N m Hf Inv. unfold in_facts.
   split; [intros; eapply in_limit_error_iff; eauto|].
   split; [intros until 3; eapply in_implicit_open; eauto|].
   split.
-  { intros op m' r fr Hok E Hfr. rewrite <- Hu. eapply in_frame_only_on_removal; eauto. }
+  { intros op m' r fr Hok E Hfr. eapply in_frame_only_on_removal; eauto. }
   split.
   { intros op m' r fr Hok E. destruct Inv as (a & o & M & I).
     destruct (istep_inv _ _ _ _ _ _ _ _ _ _ Hf I Hok E) as (a' & o' & M' & I' & _ & _ & HM & _).
     destruct (in_adv_inv _ _ _ _ _ _ Hf I) as [A _]. destruct (in_adv_inv _ _ _ _ _ _ Hf I') as [A' _]. lia. }
   intros; eapply in_accept_available; eauto.
+Qed.
+
+Theorem in_reach_facts : forall uni client N m, 0 <= N -> ireach uni client N m ->
+  in_facts (first_incoming uni client) m /\ i_uni m = uni.
+Proof.
+  intros uni client N m HN R. destruct (ireach_inv _ _ _ _ HN R) as [Inv Hu].
+  split; [|exact Hu]. eapply in_facts_inv; eauto using first_incoming_range.
 Qed.
